@@ -114,6 +114,8 @@ def run(ctx, info):
     for i in res["bad"][:5]:
         ctx.broke(f"correspondence:Trend.v vs utils.py on {json.dumps(metas[i])[:400]}", "model and implementation differ")
     ctx.coverage["correspondence"] = {"cases": res["n"], "disagreements": len(res["bad"]), "files": res["files"]}
+    from .. import scripted
+    scripted.long_runs(ctx, [("history", scripted.oracle_c15)])
     r = ctx.rng
     jobs = []
     for nm in search.all_names():
@@ -150,6 +152,9 @@ def replay(rep):
     from .. import search
     print(json.dumps({k: v for k, v in rep.items() if k != "replay"}, indent=1)[:1000])
     m = rep["replay"]
+    if m.get("kind") == "long-history":
+        from .. import scripted
+        return scripted.replay_long(m, [("history", scripted.oracle_c15)])
     if m.get("kind") == "job":
         o = search.run_job(m["job"])
         probs = history_problems(o) if o["ok"] else [o.get("error")]
